@@ -285,6 +285,9 @@ CheckCb(tk, e, tk2) ==
     \cup V(IsGuard(e.m) /\ (proc \/ actv) /\ FullObs => e.cur = survNow,
            "C06", "currentTransition() is not the transition accepted so far in this processing step")
     \cup V0(e.mact2 = e.mact, "C02", "the active state changed while a callback was making requests")
+    \cup V(FullObs /\ tk.incall /\ tk.dseq = <<>> /\ tk.dpos = 0 /\ ~IsGuard(e.m) /\ tk.op \notin {"exit", "dtor", "load", "ito", "iwith", "ctor", "enter"}
+             => e.req[1] = tk.lastreq[1] /\ e.req[2] = tk.lastreq[2],
+           "C02", "a request made earlier is no longer waiting although no processing point was reached since (or a request appeared from nowhere)")
     \cup V(e.ev # 0, "C05", "the callback did not receive the caller's own event object")
     \* ---- payload integrity
     \cup V0(e.req[3] # 999 /\ e.cur[3] # 999 /\ e.pend[3] # 999 /\ \A q \in 1 .. Len(e.plan) : e.plan[q][3] # 999,
